@@ -59,6 +59,9 @@ structure Cfg where
   top : Nat
   logs : List Mod
   apps : List App
+  /-- the `storage` module: `key` 0 = none configured (caddy.DefaultStorage), 1‥3 = a probe storage
+      module with that identity; `fault` as for a guest module -/
+  stor : Mod := ⟨0, 0⟩
 deriving DecidableEq, Repr
 
 def App.isHttp (a : App) : Bool := a.name == 3
@@ -115,6 +118,7 @@ structure Ctx where
   live : List Live
   wkeys : List Nat
   cbs : List Nat
+  stor : Nat := 0     -- cfg.storage (0 = caddy.DefaultStorage)
 deriving DecidableEq, Repr
 
 structure State where
@@ -128,6 +132,7 @@ structure State where
   aevents : List Ev       -- app events (Start / Stop), kept apart: different identity, different proofs
   next : Nat              -- number of operations so far = number of the next context
   nseq : Nat              -- number of module instances created so far
+  dstor : Nat := 0        -- certmagic.Default.Storage (process-global; 0 = caddy.DefaultStorage)
 
 def State.init : State :=
   { raw := none, rawJSON := none, cur := none, socks := [], mpool := fun _ => 0,
@@ -300,6 +305,31 @@ def closeLogs : List Nat → State → State
     if s.writers k = 1 then closeLogs ks (ev { s with writers := decr s.writers k } [.wclose k])
     else closeLogs ks { s with writers := decr s.writers k }
 
+/-! ### storage -/
+
+/-- LoadModuleByID of the storage module (pseudo app 102), from `New()` on -/
+def loadStorAt (i : Inst) (m : Mod) (s : State) (live : List Live) : State × List Live × Option Res :=
+  if m.fault = 3 then (ev s [.prov i, .clean i], live, some .errProvision)
+  else if m.fault = 4 then (ev s [.prov i, .valid i, .clean i], live, some .errValidate)
+  else (ev s [.prov i, .valid i], live ++ [⟨i, none, false⟩], none)
+
+/-- provisionContext's storage step (caddy.go:549-571): load the storage module if one is
+    configured, then make the config's storage CertMagic's default storage -/
+def setStorage (cid : Nat) (m : Mod) (s : State) (live : List Live) : State × List Live × Option Res :=
+  if m.key = 0 then ({ s with dstor := 0 }, live, none)
+  else if m.fault = 1 ∨ m.fault = 2 then (s, live, some (faultRes m.fault))
+  else
+    match loadStorAt ⟨s.nseq, cid, 102, 0⟩ m (alloc s) live with
+    | (s', live', none) => ({ s' with dstor := m.key }, live', none)
+    | (s', live', some r) => (s', live', some r)
+
+/-- the "undo any other state changes" part of provisionContext's deferred rollback
+    (caddy.go:517-521): only if some configuration is current -/
+def restoreStorage (s : State) : State :=
+  match s.cur with
+  | some ctx => { s with dstor := ctx.stor }
+  | none => s
+
 /-! ### cancel -/
 
 /-- the Cleanup of one loaded module: releases its pool reference (if it holds one) -/
@@ -385,11 +415,14 @@ def unsyncedStop (c : Option Ctx) (s : State) : State :=
     is empty; openLogs registers closeLogs on a copy. On error the deferred function cancels. -/
 def provisionContext (cid : Nat) (c : Cfg) (pp : List Nat) (s : State) : State × Option Ctx × Option Res :=
   match openLogs cid c.logs s with
-  | (s1, live1, wk, some r) => (cancel cid (onCancelOnCopy [] 0) wk live1 s1, none, some r)
+  | (s1, live1, wk, some r) => (restoreStorage (cancel cid (onCancelOnCopy [] 0) wk live1 s1), none, some r)
   | (s1, live1, wk, none) =>
-    match loadApps cid (order pp c.apps) s1 live1 with
-    | (s2, live2, some r) => (cancel cid (onCancelOnCopy [] 0) wk live2 s2, none, some r)
-    | (s2, live2, none) => (s2, some ⟨cid, c.apps, live2, wk, onCancelOnCopy [] 0⟩, none)
+    match setStorage cid c.stor s1 live1 with
+    | (s1', live1', some r) => (restoreStorage (cancel cid (onCancelOnCopy [] 0) wk live1' s1'), none, some r)
+    | (s1', live1', none) =>
+    match loadApps cid (order pp c.apps) s1' live1' with
+    | (s2, live2, some r) => (restoreStorage (cancel cid (onCancelOnCopy [] 0) wk live2 s2), none, some r)
+    | (s2, live2, none) => (s2, some ⟨cid, c.apps, live2, wk, onCancelOnCopy [] 0, s2.dstor⟩, none)
 
 /-- finishSettingUp: load the config loader module (pseudo app 101) -/
 def finishSettingUpAt (i : Inst) (ctx : Ctx) (post : Bool) (s : State) : State × Ctx × Bool :=
